@@ -1,5 +1,63 @@
-import GraphrsModel.ObsComm
+/-
+  C13 — Louvain: the algebraic heart.  The gain `update_best_com` compares is (a positive
+  multiple of) the change in modularity caused by inserting the isolated node into the candidate
+  community; hence a move that is accepted because its gain is strictly larger than the gain of
+  staying strictly increases modularity.  For directed graphs this needs the weights of the
+  edges in *both* directions in `wt` (the defect repaired by the predecessor-weights fix).
+-/
+import GraphrsModel.Model.Louvain
+import Mathlib.Tactic.Ring
+import Mathlib.Tactic.FieldSimp
+import Mathlib.Tactic.Linarith
 namespace Graphrs
-/-- placeholder while the framework is brought up: replaced by the property theorems -/
-theorem C13_coarsens_nil (c : List (List Nat)) : coarsens c [] = true := rfl
+open Louvain
+
+/-- Undirected: community C (internal weight L, degree sum D) and the isolated node u (self-loop
+    weight l, degree k, weight w to C).  Merging changes modularity by gain/(2m). -/
+theorem C13_gain_is_delta_Q_undirected (m res L D l k w : Rat) (hm : m ≠ 0) :
+    termUndirected m res (L + w + l) (D + k) - (termUndirected m res L D + termUndirected m res l k)
+      = gainUndirected m res w D k / (2 * m) := by
+  unfold termUndirected gainUndirected
+  field_simp
+  ring
+
+/-- Directed: community C (L, out-degree sum O, in-degree sum I), isolated node u (self-loop l,
+    out-degree ko, in-degree ki, weight w of the edges between u and C in both directions). -/
+theorem C13_gain_is_delta_Q_directed (m res L O I l ko ki w : Rat) (hm : m ≠ 0) :
+    termDirected m res (L + w + l) (O + ko) (I + ki) - (termDirected m res L O I + termDirected m res l ko ki)
+      = gainDirected m res w ko ki I O / m := by
+  unfold termDirected gainDirected
+  field_simp
+  ring
+
+/-- Moving u from community A to community B (both taken without u) changes the modularity by
+    (gain_B − gain_A)/(2m): an accepted move (gain_B > gain_A, m > 0) strictly increases it. -/
+theorem C13_accepted_move_increases_undirected (m res LA DA LB DB l k wA wB : Rat) (hm : 0 < m)
+    (hgain : gainUndirected m res wB DB k > gainUndirected m res wA DA k) :
+    termUndirected m res LA DA + termUndirected m res (LB + wB + l) (DB + k)
+      > termUndirected m res (LA + wA + l) (DA + k) + termUndirected m res LB DB := by
+  have hm' : m ≠ 0 := ne_of_gt hm
+  have hA := C13_gain_is_delta_Q_undirected m res LA DA l k wA hm'
+  have hB := C13_gain_is_delta_Q_undirected m res LB DB l k wB hm'
+  have h2m : (0 : Rat) < 2 * m := by linarith
+  have hd : gainUndirected m res wA DA k / (2 * m) < gainUndirected m res wB DB k / (2 * m) :=
+    div_lt_div_of_pos_right hgain h2m
+  linarith
+
+theorem C13_accepted_move_increases_directed (m res LA OA IA LB OB IB l ko ki wA wB : Rat) (hm : 0 < m)
+    (hgain : gainDirected m res wB ko ki IB OB > gainDirected m res wA ko ki IA OA) :
+    termDirected m res LA OA IA + termDirected m res (LB + wB + l) (OB + ko) (IB + ki)
+      > termDirected m res (LA + wA + l) (OA + ko) (IA + ki) + termDirected m res LB OB IB := by
+  have hm' : m ≠ 0 := ne_of_gt hm
+  have hA := C13_gain_is_delta_Q_directed m res LA OA IA l ko ki wA hm'
+  have hB := C13_gain_is_delta_Q_directed m res LB OB IB l ko ki wB hm'
+  have hd : gainDirected m res wA ko ki IA OA / m < gainDirected m res wB ko ki IB OB / m :=
+    div_lt_div_of_pos_right hgain hm
+  linarith
+
+/-- non-vacuity -/
+example : gainUndirected 3 1 1 2 2 / (2 * 3) = (1 : Rat) / 9 := by
+  unfold gainUndirected
+  norm_num
+
 end Graphrs
